@@ -105,8 +105,22 @@ pub open spec fn refresh_candidate(h: NodeHandle) -> bool {
     exists|n: Node| #[trigger] n.handle == h && spec_status(n) == NodeStatus::Questionable && !spec_recent(n)
 }
 /// C11: every ping of a refresh round is followed by the lookup of the pinged node's record (which, when found, is then marked: marks_ok)
+#[verifier::opaque]
 pub open spec fn pings_are_looked_up(o: Seq<Ev>, f: Seq<Ev>) -> bool {
     forall|i: int| o.len() <= i < f.len() && #[trigger] f[i] is Send ==> i + 1 < f.len() && f[i + 1] is TableFind && f[i + 1]->TableFind_0.addr == f[i]->Send_1
+}
+pub proof fn lemma_pings_refl(o: Seq<Ev>) ensures pings_are_looked_up(o, o) { reveal(pings_are_looked_up); }
+/// one iteration of the round: [Send to a, TableFind(h with h.addr == a, found)] and, when found, [Mark]
+pub proof fn lemma_pings_step(o: Seq<Ev>, m: Seq<Ev>, f: Seq<Ev>)
+    requires pings_are_looked_up(o, m), o.len() <= m.len(), extends(m, f), m.len() + 2 <= f.len() <= m.len() + 3,
+        f[m.len() as int] is Send, f[m.len() as int + 1] is TableFind, f[m.len() as int + 1]->TableFind_0.addr == f[m.len() as int]->Send_1,
+        f.len() == m.len() + 3 ==> f[m.len() as int + 2] is Mark,
+    ensures pings_are_looked_up(o, f)
+{
+    reveal(pings_are_looked_up);
+    assert forall|i: int| o.len() <= i < f.len() && #[trigger] f[i] is Send implies i + 1 < f.len() && f[i + 1] is TableFind && f[i + 1]->TableFind_0.addr == f[i]->Send_1 by {
+        if i < m.len() { assert(m[i] is Send); assert(f[i + 1] == m[i + 1]); }
+    }
 }
 /// a refresh query: find_node with an 8-byte transaction id carrying the refresh action's 5-byte prefix
 pub open spec fn refresh_query(m: Message, action: u64) -> bool {
@@ -159,7 +173,7 @@ impl TableRefresh {
     {
         proof { lemma_consts(); }
         let ghost ev0 = tr.ev;
-        proof { lemma_marks_refl(ev0, true); }
+        proof { lemma_marks_refl(ev0, true); lemma_pings_refl(ev0); }
         if self.curr_refresh_bucket == table::MAX_BUCKETS {
             self.curr_refresh_bucket = 0;
         }
@@ -235,6 +249,7 @@ impl TableRefresh {
             } else {
                 proof { lemma_marks_miss(ev0, evf, node, true); }
             }
+            proof { lemma_pings_step(ev0, evs, tr.ev); }
         }
 
         // Start a timer for the next refresh. If the previous one is still pending (the refresh was
